@@ -270,6 +270,27 @@ def directed_personas(year, seed, n):
             p = scen.plain_persona(year, 'S', 60000.0 + (lim + d - l14), key=f'dirusetax:{seed}:{k}:{d}', nc=True)
             p.ncv.update({'no_consumer_use_tax': False, 'full_records': False})
             out.append(('F8u', p))
+    # N.C. D-400 line 26e (interest on the underpayment of estimated tax): the N.C. income tax (line 17) less the tax withheld
+    # (lines 20a/20b) placed exactly at $1,000, a dollar below, and below by the consumer use tax of line 18 (which is no income tax)
+    for k in range(n):
+        w_ = 70000.0 + 1000.0 * k
+        mk = lambda: scen.plain_persona(year, 'S', w_, key=f'dirncint:{seed}:{k}', nc=True)
+        p0 = mk()
+        p0.ncv.update({'no_consumer_use_tax': False, 'full_records': False, 'interest_on_underpayment': 37.0})
+        o0 = scen.solve_persona(p0)
+        if o0.exc is not None or o0.ret is not True:
+            continue
+        t0 = scen.typed_solution(o0)
+        l17, l18 = t0.get('nc_d-400.17'), t0.get('nc_d-400.18') or 0.0
+        if l17 is None or l17 < 1200:
+            continue
+        for short in (1000.0, 999.0, 1000.0 - l18, 1000.0 - l18 - 1.0, 1001.0):
+            p = mk()
+            p.key = f'dirncint:{seed}:{k}:{short}'
+            p.ncv.update({'no_consumer_use_tax': False, 'full_records': False, 'interest_on_underpayment': 37.0})
+            p.w2[0]['box_17'] = float(l17 - short)
+            p.nc_interest_probe = 37.0
+            out.append(('F8i', p))
     # the estimated-tax penalty line (Form 1040 line 38): the amount owed placed one dollar above and one dollar below 10 % of
     # "the tax shown on the return" (total tax less the refundable credits, which in 2021 include the recovery rebate credit)
     for k in range(n):
@@ -342,6 +363,25 @@ def directed_8606(res, year, p, sol, label, rp):
             return
 
 
+def directed_nc_interest(res, year, p, sol, label, rp):
+    """N.C. D-400 line 26e: interest on the underpayment of estimated income tax is due when the income tax of line 17 less the
+    N.C. tax withheld (lines 20a and 20b) is $1,000 or more (Form D-422); the consumer use tax of line 18 is not income tax."""
+    amt = getattr(p, 'nc_interest_probe', None)
+    if amt is None or 'nc_d-400.17' not in sol or 'nc_d-400.26a' not in sol:
+        return
+    short = sol['nc_d-400.17'] - (sol.get('nc_d-400.20a') or 0.0) - (sol.get('nc_d-400.20b') or 0.0)
+    owes = short >= 1000.0
+    exp = amt if owes else 0.0
+    got = sol.get('nc_d-400.26e') or 0.0
+    res.evaluations += 1
+    res.count('rule_instances_transcribed')
+    res.distinct.add(f'{year}|nc_d-400.26e|transcribed-directed|{owes}')
+    if abs(got - exp) > 0.005:
+        res.violation(f'C02|{year}|nc_d-400.26e|transcribed', f'{label}: N.C. income tax {sol["nc_d-400.17"]} less tax withheld leaves {short:.2f} (use tax on line 18: {sol.get("nc_d-400.18")}): line 26e should carry {exp} but is {got}', rp)
+    if 'nc_d-400.27' in sol and abs(sol['nc_d-400.27'] - (sol['nc_d-400.26a'] + (sol.get('nc_d-400.26d') or 0.0) + exp)) > 0.005:
+        res.violation(f'C02|{year}|nc_d-400.27|transcribed', f'{label}: line 27 = {sol["nc_d-400.27"]} is not 26a + 26d + the interest due ({exp})', rp)
+
+
 def directed_penalty(res, year, p, sol, label, rp):
     """Form 1040 instructions, line 38: you may owe the penalty if line 37 is at least $1,000 and more than 10 % of the tax shown
     on the return (line 24 less lines 27/27a, 28, 29 and - 2021 - 30).  The persona's penalty is a known amount."""
@@ -401,6 +441,7 @@ def run_shard(spec, tier, seed):
                 res.count('full_evaluation_failed')
             directed_ira(res, year, p, sol, f'{year} {fam} {p.key}', realwork.replay_of(p, 'base', spec))
             directed_penalty(res, year, p, sol, f'{year} {fam} {p.key}', realwork.replay_of(p, 'base', spec))
+            directed_nc_interest(res, year, p, sol, f'{year} {fam} {p.key}', realwork.replay_of(p, 'base', spec))
             if out.exc is None and out.ret is True:
                 directed_hsa(res, year, p, sol, f'{year} {fam} {p.key}', realwork.replay_of(p, 'base', spec))
                 directed_8606(res, year, p, sol, f'{year} {fam} {p.key}', realwork.replay_of(p, 'base', spec))
